@@ -214,10 +214,36 @@ Proof.
   repeat split; try assumption. intros pc Hpc. rewrite forallb_forall in H3. apply N.eqb_eq. apply H3. exact Hpc.
 Qed.
 
+Lemma accepted_parts : forall sp, accepted sp = true ->
+  let b := sp_board sp in let w := sp_white sp in
+  length b = 64%nat /\
+  forallb (fun pc => N.leb pc 12) b = true /\
+  count_piece b WKING = 1%nat /\ count_piece b BKING = 1%nat /\
+  in_checkb b (negb w) = false /\
+  sp_castle sp < 16 /\
+  (has_right sp true true = true -> is_piece true King (at_ b 4 0) = true /\ is_piece true Rook (at_ b 7 0) = true) /\
+  (has_right sp true false = true -> is_piece true King (at_ b 4 0) = true /\ is_piece true Rook (at_ b 0 0) = true) /\
+  (has_right sp false true = true -> is_piece false King (at_ b 4 7) = true /\ is_piece false Rook (at_ b 7 7) = true) /\
+  (has_right sp false false = true -> is_piece false King (at_ b 4 7) = true /\ is_piece false Rook (at_ b 0 7) = true).
+Proof.
+  intros sp H. unfold accepted in H. cbv zeta in H. rewrite !andb_true_iff in H. cbv zeta.
+  decompose [and] H. clear H.
+  repeat match goal with
+         | H : (_ =? _)%nat = true |- _ => apply Nat.eqb_eq in H
+         | H : negb _ = true |- _ => apply negb_true_iff in H
+         | H : (_ <? _) = true |- _ => apply N.ltb_lt in H
+         end.
+  repeat split; try assumption;
+    repeat match goal with
+           | Hx : negb ?r || _ = true, Hr : ?r = true |- _ =>
+               rewrite Hr in Hx; cbn [negb orb] in Hx; apply andb_true_iff in Hx; destruct Hx
+           end; assumption.
+Qed.
+
 Lemma WF_pieces_le_12 : forall p sq, WF p -> getPiece p sq <= 12.
 Proof.
-  intros p sq H. destruct (WF_parts p H) as [Hl [_ [_ [_ Ha]]]]. unfold accepted in Ha. rewrite !andb_true_iff in Ha.
-  destruct Ha as [[[[[[[[[[[[_ Hle] _] _] _] _] _] _] _] _] _] _] _]. cbn [abs sp_board] in Hle.
+  intros p sq H. destruct (WF_parts p H) as [Hl [_ [_ [_ Ha]]]].
+  destruct (accepted_parts _ Ha) as [_ [Hle _]]. cbn [abs sp_board] in Hle.
   rewrite forallb_forall in Hle. unfold getPiece.
   destruct (Nat.lt_ge_cases (N.to_nat sq) (length (squares p))) as [Hlt|Hge].
   - apply N.leb_le. apply Hle. apply nth_In. exact Hlt.
@@ -253,3 +279,203 @@ Proof.
     fold (getPiece p k). destruct (k <? 64); [|reflexivity]. cbn [andb].
     destruct (le12_cases _ Hle) as [E|[E|[E|[E|[E|[E|[E|[E|[E|[E|[E|[E|E]]]]]]]]]]]]; rewrite E; reflexivity.
 Qed.
+
+(** * Step pieces: generator blocks = Spec pseudo-moves *)
+Lemma step_moves_In : forall b w f r offs m,
+  In m (step_moves b w f r offs) <->
+  exists d, In d offs /\ on_board (f + fst d) (r + snd d) = true /\
+            has_color w (at_ b (f + fst d) (r + snd d)) = false /\
+            m = mv f r (f + fst d) (r + snd d) EMPTY.
+Proof.
+  intros. unfold step_moves. rewrite in_flat_map. split.
+  - intros [d [Hd Hin]]. exists d.
+    destruct (on_board (f + fst d) (r + snd d)) eqn:E1; cbn [andb] in Hin; [|destruct Hin].
+    destruct (has_color w (at_ b (f + fst d) (r + snd d))) eqn:E2; cbn [negb] in Hin; [destruct Hin|].
+    destruct Hin as [<-|[]]. auto.
+  - intros [d [Hd [H1 [H2 ->]]]]. exists d. split; [exact Hd|]. rewrite H1, H2. left. reflexivity.
+Qed.
+
+Section StepBlock.
+Variable p : position.
+Variable w : bool.
+Variable tbl : square -> N.
+Variable offs : list (Z * Z).
+Hypothesis HWF : WF p.
+Hypothesis tbl_spec : forall s, s < 64 ->
+  tbl s < 2 ^ 64 /\ forall t, t < 64 -> N.testbit (tbl s) t = step_rel offs s t.
+
+Lemma step_target_bridge : forall s m, s < 64 ->
+  ((exists t, N.testbit (andn (tbl s) (colorBB p w)) t = true /\ m = mkMove s t EMPTY) <->
+   In m (step_moves (squares p) w (zf s) (zr s) offs)).
+Proof.
+  intros s m Hs. destruct (tbl_spec s Hs) as [Hlt Htb]. destruct (coords_of_sq s Hs) as [_ [_ Hsq]].
+  rewrite step_moves_In. split.
+  - intros [t [Ht ->]]. unfold andn in Ht. rewrite N.ldiff_spec in Ht. apply andb_true_iff in Ht.
+    destruct Ht as [Ht1 Ht2]. pose proof (bits_below_64 _ Hlt t Ht1) as Ht64.
+    rewrite (Htb t Ht64) in Ht1. unfold step_rel in Ht1. apply existsb_exists in Ht1.
+    destruct Ht1 as [d [Hd He]]. apply andb_true_iff in He. destruct He as [He1 He2].
+    apply Z.eqb_eq in He1, He2. destruct (coords_of_sq t Ht64) as [Hob [_ Hsqt]].
+    exists d. rewrite <- He1, <- He2. repeat split; try assumption.
+    + rewrite <- (getPiece_at p t Ht64). rewrite (colorBB_testbit p w t HWF) in Ht2.
+      apply negb_true_iff in Ht2. apply andb_false_iff in Ht2. destruct Ht2 as [Ht2|Ht2]; [|exact Ht2].
+      apply N.ltb_ge in Ht2. lia.
+    + unfold mv. rewrite Hsq, Hsqt. reflexivity.
+  - intros [d [Hd [Hob [Hc ->]]]]. destruct (sq_of_coords _ _ Hob) as [Ht64 [Hf [Hr _]]].
+    set (t := sq_of (zf s + fst d) (zr s + snd d)) in *. exists t. split.
+    + unfold andn. rewrite N.ldiff_spec. apply andb_true_iff. split.
+      * rewrite (Htb t Ht64). unfold step_rel. apply existsb_exists. exists d. split; [exact Hd|].
+        rewrite Hf, Hr, !Z.eqb_refl. reflexivity.
+      * apply negb_true_iff. rewrite (colorBB_testbit p w t HWF). apply andb_false_iff. right.
+        rewrite (getPiece_at p t Ht64), Hf, Hr. exact Hc.
+    + unfold mv. rewrite Hsq. reflexivity.
+Qed.
+End StepBlock.
+
+Lemma nthN_overflow : forall l i, N.of_nat (length l) <= i -> nthN l i = 0.
+Proof. intros l i H. unfold nthN. apply nth_overflow. lia. Qed.
+
+Lemma knightAttacks_lt : forall s, andn (knightAttacks s) 0 < 2 ^ 64 /\ knightAttacks s < 2 ^ 64.
+Proof.
+  intro s. assert (H : knightAttacks s < 2 ^ 64).
+  { destruct (N.lt_ge_cases s 64) as [Hs|Hs]; [apply (knightAttacks_spec s Hs)|].
+    unfold knightAttacks. rewrite nthN_overflow; [reflexivity | exact Hs]. }
+  split; [apply ldiff_lt; exact H | exact H].
+Qed.
+
+Lemma kingAttacks_lt : forall s, kingAttacks s < 2 ^ 64.
+Proof.
+  intro s. destruct (N.lt_ge_cases s 64) as [Hs|Hs]; [apply (kingAttacks_spec s Hs)|].
+  unfold kingAttacks. rewrite nthN_overflow; [reflexivity | exact Hs].
+Qed.
+
+Lemma myPiece_codes : forall w wp, In wp [1; 2; 3; 4; 5; 6] -> In (myPiece w wp) pieceCodes.
+Proof.
+  intros w wp H. unfold myPiece, pieceCodes. cbn in H.
+  destruct H as [<-|[<-|[<-|[<-|[<-|[<-|[]]]]]]]; destruct w; cbn; tauto.
+Qed.
+
+Theorem knightBlock_spec : forall p m, WF p ->
+  (In m (knightBlock (whiteMove p) p []) <->
+   exists f r, on_board f r = true /\ at_ (squares p) f r = mk_piece (whiteMove p) Knight /\
+               In m (step_moves (squares p) (whiteMove p) f r knight_offsets)).
+Proof.
+  intros p m H. set (w := whiteMove p). unfold knightBlock.
+  assert (Hpc : In (myPiece w WKNIGHT) pieceCodes) by (apply myPiece_codes; cbn; tauto).
+  assert (Emk : mk_piece w Knight = myPiece w WKNIGHT) by (destruct w; reflexivity).
+  rewrite (forSquares_moves_In (fun sq => andn (knightAttacks sq) (colorBB p w))).
+  - cbn [In]. split.
+    + intros [[]|[sq [t [Hs [Ht ->]]]]]. rewrite (ptBB_testbit p _ sq H Hpc) in Hs.
+      apply andb_true_iff in Hs. destruct Hs as [Hs1 Hs2]. apply N.ltb_lt in Hs1. apply N.eqb_eq in Hs2.
+      destruct (coords_of_sq sq Hs1) as [Hob _]. exists (zf sq), (zr sq). split; [exact Hob|]. split.
+      * rewrite <- (getPiece_at p sq Hs1), Emk. exact Hs2.
+      * apply (step_target_bridge p w knightAttacks knight_offsets H knightAttacks_spec sq _ Hs1).
+        exists t. auto.
+    + intros [f [r [Hob [Hat Hin]]]]. right. destruct (sq_of_coords f r Hob) as [Hs [Hf [Hr _]]].
+      assert (Hin' : In m (step_moves (squares p) w (zf (sq_of f r)) (zr (sq_of f r)) knight_offsets))
+        by (rewrite Hf, Hr; exact Hin).
+      apply (step_target_bridge p w knightAttacks knight_offsets H knightAttacks_spec _ _ Hs) in Hin'.
+      destruct Hin' as [t [Ht ->]]. exists (sq_of f r), t. split; [|auto].
+      rewrite (ptBB_testbit p _ _ H Hpc). apply andb_true_iff. split; [apply N.ltb_lt; exact Hs|].
+      apply N.eqb_eq. rewrite <- (at_getPiece p f r Hob), Hat, Emk. reflexivity.
+  - apply ptBB_lt; assumption.
+  - intro sq. apply ldiff_lt. apply knightAttacks_lt.
+Qed.
+
+(** ** exactly one king *)
+Lemma count_two : forall (x : piece) (l : list piece) i j,
+  (i < length l)%nat -> (j < length l)%nat -> i <> j -> nth i l EMPTY = x -> nth j l EMPTY = x ->
+  (2 <= count_piece l x)%nat.
+Proof.
+  assert (Hin : forall (x : piece) l, In x l -> (1 <= length (filter (N.eqb x) l))%nat).
+  { intros x l H. induction l as [|a l IH]; [destruct H|]. cbn [filter].
+    destruct H as [->|H]; [rewrite N.eqb_refl; cbn; lia|].
+    destruct (x =? a); cbn [length]; [lia | apply IH, H]. }
+  assert (Hlt : forall (x : piece) l i j, (i < j)%nat -> (j < length l)%nat -> nth i l EMPTY = x -> nth j l EMPTY = x ->
+                 (2 <= count_piece l x)%nat).
+  { intros x l i j Hij Hj Hi Hjx. unfold count_piece.
+    destruct (nth_split l EMPTY (n := i)) as [l1 [l2 [El Hl1]]]; [lia|].
+    rewrite Hi in El. rewrite El. rewrite filter_app. cbn [filter]. rewrite N.eqb_refl. rewrite app_length. cbn [length].
+    assert (In x l2).
+    { rewrite El in Hjx. rewrite app_nth2 in Hjx by lia. rewrite Hl1 in Hjx.
+      replace (j - i)%nat with (S (j - i - 1)) in Hjx by lia. cbn [nth] in Hjx.
+      rewrite <- Hjx. apply nth_In. rewrite El, app_length in Hj. cbn [length] in Hj. lia. }
+    pose proof (Hin x l2 H) as H0. unfold piece in *. lia. }
+  intros x l i j Hi Hj Hne Hxi Hxj.
+  destruct (Nat.lt_ge_cases i j); [apply (Hlt x l i j); assumption | apply (Hlt x l j i); try assumption; lia].
+Qed.
+
+Lemma king_unique : forall p w s1 s2, WF p -> s1 < 64 -> s2 < 64 ->
+  getPiece p s1 = mk_piece w King -> getPiece p s2 = mk_piece w King -> s1 = s2.
+Proof.
+  intros p w s1 s2 H H1 H2 E1 E2. destruct (WF_parts p H) as [Hl [_ [_ [_ Ha]]]].
+  destruct (accepted_parts _ Ha) as [_ [_ [Hw [Hb _]]]]. cbn [abs sp_board] in Hw, Hb.
+  destruct (N.eq_dec s1 s2) as [|Hne]; [assumption|]. exfalso.
+  assert (Hc : (2 <= count_piece (squares p) (mk_piece w King))%nat).
+  { apply (count_two _ _ (N.to_nat s1) (N.to_nat s2)); try (rewrite Hl; lia); try assumption. lia. }
+  destruct w; cbn [mk_piece] in Hc; lia.
+Qed.
+
+Lemma king_exists : forall p w, WF p -> exists s, s < 64 /\ getPiece p s = mk_piece w King.
+Proof.
+  intros p w H. destruct (WF_parts p H) as [Hl [_ [_ [_ Ha]]]].
+  destruct (accepted_parts _ Ha) as [_ [_ [Hw [Hb _]]]]. cbn [abs sp_board] in Hw, Hb.
+  assert (Hc : count_piece (squares p) (mk_piece w King) = 1%nat) by (destruct w; assumption).
+  unfold count_piece in Hc.
+  destruct (filter (N.eqb (mk_piece w King)) (squares p)) as [|x l] eqn:E; [discriminate|].
+  assert (Hin : In x (filter (N.eqb (mk_piece w King)) (squares p))) by (rewrite E; left; reflexivity).
+  apply filter_In in Hin. destruct Hin as [Hin Hx]. apply N.eqb_eq in Hx. subst x.
+  apply (In_nth _ _ EMPTY) in Hin. destruct Hin as [i [Hi Hn]].
+  exists (N.of_nat i). split; [lia|]. unfold getPiece. rewrite Nat2N.id. exact Hn.
+Qed.
+
+Lemma kingSq_spec : forall p w, WF p ->
+  kingSq p w < 64 /\ getPiece p (kingSq p w) = mk_piece w King.
+Proof.
+  intros p w H. unfold kingSq.
+  assert (Emk : (if w then WKING else BKING) = mk_piece w King) by (destruct w; reflexivity). rewrite Emk.
+  assert (Hpc : In (mk_piece w King) pieceCodes) by (destruct w; cbn; tauto).
+  pose proof (ptBB_lt p _ H Hpc) as Hlt.
+  destruct (king_exists p w H) as [s [Hs Hk]].
+  assert (Hbit : N.testbit (ptBB p (mk_piece w King)) s = true).
+  { rewrite (ptBB_testbit p _ s H Hpc). apply andb_true_iff. split; [apply N.ltb_lt; exact Hs | apply N.eqb_eq; exact Hk]. }
+  assert (Hpos : 0 < ptBB p (mk_piece w King)).
+  { apply N.neq_0_lt_0. intro E. rewrite E, N.bits_0 in Hbit. discriminate. }
+  unfold firstSquare. rewrite (firstBitT_correct _ Hpos Hlt).
+  pose proof (firstBit_testbit _ Hpos) as Hfb. rewrite (ptBB_testbit p _ _ H Hpc) in Hfb.
+  apply andb_true_iff in Hfb. destruct Hfb as [Hf1 Hf2]. apply N.ltb_lt in Hf1. apply N.eqb_eq in Hf2. auto.
+Qed.
+
+Theorem kingBlock_spec : forall p m, WF p ->
+  (In m (kingBlock (whiteMove p) p []) <->
+   exists f r, on_board f r = true /\ at_ (squares p) f r = mk_piece (whiteMove p) King /\
+               In m (step_moves (squares p) (whiteMove p) f r king_offsets)).
+Proof.
+  intros p m H. set (w := whiteMove p). unfold kingBlock. cbv zeta.
+  destruct (kingSq_spec p w H) as [Hk64 Hkp].
+  rewrite addMovesByMask_In by (apply ldiff_lt; apply kingAttacks_lt). cbn [In].
+  split.
+  - intros [[]|Ht]. destruct (coords_of_sq _ Hk64) as [Hob _].
+    exists (zf (kingSq p w)), (zr (kingSq p w)). split; [exact Hob|]. split.
+    + rewrite <- (getPiece_at p _ Hk64). exact Hkp.
+    + apply (step_target_bridge p w kingAttacks king_offsets H kingAttacks_spec _ _ Hk64). exact Ht.
+  - intros [f [r [Hob [Hat Hin]]]]. right. destruct (sq_of_coords f r Hob) as [Hs [Hf [Hr _]]].
+    assert (Es : sq_of f r = kingSq p w).
+    { apply (king_unique p w _ _ H Hs Hk64); [|exact Hkp]. rewrite <- (at_getPiece p f r Hob). exact Hat. }
+    assert (Hin' : In m (step_moves (squares p) w (zf (kingSq p w)) (zr (kingSq p w)) king_offsets))
+      by (rewrite <- Es, Hf, Hr; exact Hin).
+    apply (step_target_bridge p w kingAttacks king_offsets H kingAttacks_spec _ _ Hk64) in Hin'. exact Hin'.
+Qed.
+
+Theorem step_blocks_spec : forall p m, WF p ->
+  (In m (knightBlock (whiteMove p) p []) <->
+   exists f r, on_board f r = true /\ at_ (squares p) f r = mk_piece (whiteMove p) Knight /\
+               In m (step_moves (squares p) (whiteMove p) f r knight_offsets)) /\
+  (In m (kingBlock (whiteMove p) p []) <->
+   exists f r, on_board f r = true /\ at_ (squares p) f r = mk_piece (whiteMove p) King /\
+               In m (step_moves (squares p) (whiteMove p) f r king_offsets)).
+Proof. intros p m H. split; [apply knightBlock_spec | apply kingBlock_spec]; exact H. Qed.
+
+(** non-vacuity: the start position's knight block has the four knight moves *)
+Example start_knight_block :
+  knightBlock true startPosition [] = [mkMove 1 16 EMPTY; mkMove 1 18 EMPTY; mkMove 6 21 EMPTY; mkMove 6 23 EMPTY].
+Proof. vm_compute. reflexivity. Qed.
